@@ -148,6 +148,7 @@ func (C10) Generate(c *Ctx, r *Rand, index int) *Scenario {
 	rf := r.Fork("sched")
 	if rf.Chance(2, 5) {
 		sc.Plan.Readers = []ReaderPlan{{Stream: "input", Chunks: genChunks(rf), ErrAt: -1, EOFWithData: rf.Chance(1, 3)}}
+		// (a Read that returns (0, nil) is not injected: os.File never does that, so it is not a fault a yq process can meet)
 	} else if rf.Chance(1, 6) {
 		sc.Plan.Readers = []ReaderPlan{{Stream: "input", ErrAt: -1, EOFWithData: true}}
 	}
